@@ -151,6 +151,12 @@ type Assignment struct {
 // C20Plan is a set of assignments (at most one per key).
 type C20Plan struct {
 	Assign []Assignment `json:"assign"`
+	// Select: how the configuration file is chosen: 0 = -C flag, 1 = BHS_CONFIG_FILE, 2 = not at all (the file is
+	// ./config.yaml, the documented default location)
+	Select int `json:"select,omitempty"`
+	// Decoy (Select 0/1): a ./config.yaml with other values for the same keys lies in the working directory and must be
+	// ignored, because another file was selected
+	Decoy bool `json:"decoy,omitempty"`
 }
 
 func yamlQuote(s string) string {
@@ -238,6 +244,7 @@ func runC20(p *C20Plan) (*stats.Case, error) {
 	keys := cfgKeys()
 	defaults := config.GetDefaultAppConfig()
 	fileVals, kinds := map[string]string{}, map[string]string{}
+	decoyVals := map[string]string{}
 	expect := map[string]string{}
 	var envSet []string
 	used := map[int]bool{}
@@ -257,6 +264,7 @@ func runC20(p *C20Plan) (*stats.Case, error) {
 			text, norm := valueFor(k, a.FileV)
 			fileVals[k.Path] = text
 			expect[k.Path] = norm
+			decoyVals[k.Path], _ = valueFor(k, a.FileV+1)
 		}
 		if a.Env {
 			text, norm := valueFor(k, a.EnvV)
@@ -274,10 +282,29 @@ func runC20(p *C20Plan) (*stats.Case, error) {
 		}
 	}()
 	file := ""
+	defaultLocation := filepath.Join(c20Dir, "config.yaml")
+	_ = os.Remove(defaultLocation)
+	defer os.Remove(defaultLocation)
 	if len(fileVals) > 0 {
 		file = filepath.Join(c20Dir, "cfg.yaml")
+		if p.Select == 2 {
+			file = defaultLocation
+		}
 		if err := os.WriteFile(file, []byte(buildYAML(fileVals, kinds)), 0o644); err != nil {
 			return nil, fmt.Errorf("infra: %w", err)
+		}
+		if p.Decoy && p.Select != 2 {
+			if err := os.WriteFile(defaultLocation, []byte(buildYAML(decoyVals, kinds)), 0o644); err != nil {
+				return nil, fmt.Errorf("infra: %w", err)
+			}
+		}
+		switch p.Select {
+		case 1:
+			_ = os.Setenv("BHS_CONFIG_FILE", file)
+			envSet = append(envSet, "BHS_CONFIG_FILE")
+			file = ""
+		case 2:
+			file = ""
 		}
 	}
 	cfg, err := loadConfig(file)
@@ -300,15 +327,15 @@ func runC20(p *C20Plan) (*stats.Case, error) {
 			return nil, fmt.Errorf("key %s: effective value %q, expected %q (%s; env %v, file %v)", k.Path, got, want, src, envSet, fileVals)
 		}
 	}
-	cl := map[string]int64{"loads": 1, "keys_set": int64(len(used)), "with_env_and_file_differing": b2i(both > 0)}
-	return &stats.Case{Sig: stats.Sig(fmt.Sprint(p.Assign)), Nontrivial: both > 0, Classes: cl, Sample: p}, nil
+	cl := map[string]int64{"select_flag": b2i(p.Select == 0), "select_env": b2i(p.Select == 1), "select_default_location": b2i(p.Select == 2), "with_decoy_config_yaml": b2i(p.Decoy && p.Select != 2 && len(fileVals) > 0), "loads": 1, "keys_set": int64(len(used)), "with_env_and_file_differing": b2i(both > 0)}
+	return &stats.Case{Sig: stats.Sig(fmt.Sprint(p.Assign, p.Select, p.Decoy)), Nontrivial: both > 0, Classes: cl, Sample: p}, nil
 }
 
 var propC20 = Prop[*C20Plan]{
 	ID:   "C20",
 	Name: "TestC20Multi",
 	Gen: func(t *rapid.T) *C20Plan {
-		p := &C20Plan{}
+		p := &C20Plan{Select: rapid.SampledFrom([]int{0, 0, 1, 2}).Draw(t, "select"), Decoy: rapid.Bool().Draw(t, "decoy")}
 		n := rapid.IntRange(2, 7).Draw(t, "n")
 		for i := 0; i < n; i++ {
 			src := rapid.IntRange(1, 3).Draw(t, "src")
